@@ -276,6 +276,28 @@ class Gen:
         self.funs[f] = (1, lambda a, k=k: (a + k) % M)
         return self.add(Form("include", '#include "%s"' % fn))
 
+    def g_out_split(self):
+        """an output statement whose expression is broken across lines inside parentheses"""
+        self.mark += 1
+        m = "@@%d:" % self.mark
+        (a, av), (b, bv) = self.expr(), self.expr()
+        text = '%s << "%s" << (%s +\n      %s) << newline;' % (self.d.out, m, a, b)
+        return self.add(Form("out-split", text, marker=m, value=m + str(av + bv)))
+
+    def g_fun_split(self):
+        """a function whose header spans several lines, body in pile style"""
+        SI = self.d.SI
+        nm = self.fresh("f")
+        k = self.rng.range(1, 9)
+        self.funs[nm] = (2, lambda a, b, k=k: (a + b + k) % M)
+        text = "%s(a: %s,\n      b: %s): %s ==\n  t: %s := a + b\n  (t + %d) rem %d" % (nm, SI, SI, SI, SI, k, M)
+        self.add(Form("fun-split", text))
+        # An indentation-structured definition is only complete when the loop has read the next
+        # non-indented line, which then belongs to the same step: a rejected form there would
+        # take the definition down with it (line-based step detection, see DESIGN.md 10.4).
+        # The generator therefore always lets an accepted one-line form follow.
+        return self.g_out()
+
     def g_loop(self):
         if not self.vars:
             return self.g_var()
@@ -421,7 +443,8 @@ class Gen:
                     continue
                 k = r.weighted([("out", 30), ("assign", 12), ("var", 8), ("const", 8), ("fun", 10), ("big", 6),
                                 ("str", 6), ("list", 8), ("loop", 6), ("domain", 3 if self.d.name != "libaldor" else 0),
-                                ("macro", 4), ("ifblock", 5), ("include", 3 if len(self.files) < 3 else 0)])
+                                ("macro", 4), ("ifblock", 5), ("include", 3 if len(self.files) < 3 else 0),
+                                ("out_split", 6), ("fun_split", 4)])
                 getattr(self, "g_" + k)()
         # every session ends with an output so the last state is observed
         self.g_out()
